@@ -59,12 +59,15 @@ func C08(r *core.Report) {
 	reach, fns := c08Scope(r)
 	r.Extra["C08_scope_functions"] = len(fns)
 	r.Extra["C08_reachable_total"] = len(reach)
+	c08ComputeParamTaint(r.Prog, fns)
+	r.Extra["C08_tainted_params"] = len(c08ParamTaint)
 	c08NilGuards(r, fns)
 	c08Must(r, fns, reach)
 	c08ReplyTypestate(r, fns)
 	c08UseAfterError(r, fns)
 	c08LocalPtrField(r, fns)
 	c08Assertions(r, fns)
+	c08Bounds(r, fns)
 	r.Floor("C08.R1", 8)
 	r.Floor("C08.R3", 20)
 	r.Floor("C08.R6", 10)
@@ -362,8 +365,56 @@ func selectorFieldPath(sel *ast.SelectorExpr) string {
 // captured), parameters of directly invoked literals whose arguments are tainted in the parent, and what
 // is derived from them. Results of repository calls other than the request parsers are archive/server
 // data, not request data (they are C12's concern).
+var c08ParamTaint = map[types.Object]bool{}
+
+// c08ComputeParamTaint propagates request taint through call arguments into the parameters of the
+// repository functions in scope (fixpoint, bounded).
+func c08ComputeParamTaint(p *core.Prog, fns []*core.Func) {
+	c08ParamTaint = map[types.Object]bool{}
+	for round := 0; round < 6; round++ {
+		changed := false
+		for _, f := range fns {
+			t := requestTaint(p, f)
+			if len(t) == 0 {
+				continue
+			}
+			info := f.Pkg.TypesInfo
+			for _, cs := range p.Calls(f) {
+				for _, tg := range cs.Targets {
+					if tg.Obj == nil || core.ShortPkg(tg.Pkg.PkgPath) != "main" {
+						continue
+					}
+					for i, a := range cs.Call.Args {
+						if !mentionsAny(info, a, t, false) {
+							continue
+						}
+						if po := tg.ParamObj(i); po != nil && !c08ParamTaint[po] && !core.IsErrorType(po.Type()) && core.NamedTypeName(po.Type()) != "context.Context" {
+							c08ParamTaint[po] = true
+							changed = true
+						}
+					}
+				}
+			}
+		}
+		if !changed {
+			break
+		}
+	}
+}
+
 func requestTaint(p *core.Prog, f *core.Func) map[types.Object]bool {
 	var seeds []types.Object
+	for x := f; x != nil; x = x.Parent {
+		for i := 0; ; i++ {
+			po := x.ParamObj(i)
+			if po == nil {
+				break
+			}
+			if c08ParamTaint[po] {
+				seeds = append(seeds, po)
+			}
+		}
+	}
 	for x := f; x != nil; x = x.Parent {
 		for i := 0; ; i++ {
 			po := x.ParamObj(i)
@@ -411,8 +462,8 @@ func requestTaint(p *core.Prog, f *core.Func) map[types.Object]bool {
 			if pk == "main" && (strings.HasPrefix(nm, "parse") || nm == "Validate") {
 				return false
 			}
-			if pk == grpcPkg {
-				return false // generated getters
+			if pk == grpcPkg || pk == "slottools" {
+				return false // generated getters; pure slot/epoch arithmetic
 			}
 			return true
 		}
@@ -803,4 +854,119 @@ func c08Assertions(r *core.Report, fns []*core.Func) {
 		})
 	}
 	r.Extra["C08_type_assertions_in_scope"] = inv
+}
+
+
+// ---- R7 / R8 ----------------------------------------------------------------------------------
+
+// c08Bounds: (R7) index/slice expressions whose base is request-derived or is a list of the loaded epochs
+// (which may be empty: "zero epochs loaded") must be guarded; (R8) make() sized by a request-derived value
+// must be bounded (an unsigned difference needs a dominating comparison of its operands).
+func c08Bounds(r *core.Report, fns []*core.Func) {
+	p := r.Prog
+	nIdx, nMake := 0, 0
+	for _, f := range fns {
+		info := f.Pkg.TypesInfo
+		taint := requestTaint(p, f)
+		// epoch-set derived slices: results of *MultiEpoch methods
+		epochLists := map[types.Object]bool{}
+		ast.Inspect(f.Body, func(n ast.Node) bool {
+			as, ok := n.(*ast.AssignStmt)
+			if !ok || len(as.Rhs) != 1 {
+				return true
+			}
+			c, ok := core.Unparen(as.Rhs[0]).(*ast.CallExpr)
+			if !ok || !strings.HasPrefix(core.CalleeName(info, c), "main.(*MultiEpoch).") {
+				return true
+			}
+			for _, l := range as.Lhs {
+				if o := core.ObjOf(info, l); o != nil {
+					if _, isSl := o.Type().Underlying().(*types.Slice); isSl {
+						epochLists[o] = true
+					}
+				}
+			}
+			return true
+		})
+		cnt := map[string]int{}
+		for _, s := range analyzeBounds(p, f) {
+			bo := core.ObjOf(info, rootIdentExpr(s.Base))
+			relevant := mentionsAny(info, s.Expr, taint, false) || (bo != nil && epochLists[bo])
+			if !relevant {
+				continue
+			}
+			// a string sliced at len(prefix) after strings.HasPrefix(s, prefix)
+			if !s.OK && hasPrefixGuard(p, f, s) {
+				s.OK, s.Reason = true, "guarded by strings.HasPrefix on the same string and prefix"
+			}
+			nIdx++
+			key := s.key()
+			cnt[key]++
+			if cnt[key] > 1 {
+				key = fmt.Sprintf("%s#%d", key, cnt[key])
+			}
+			what := "request-derived"
+			if bo != nil && epochLists[bo] {
+				what = "a list of the loaded epochs (empty when no epoch is loaded)"
+			}
+			r.Check(s.OK, "C08.R7", key, pos(r, s.Expr), s.Reason, "index/slice on "+what+" data without a sufficient guard: "+s.Reason)
+		}
+		g := p.Graph(f)
+		ast.Inspect(f.Body, func(n ast.Node) bool {
+			if _, ok := n.(*ast.FuncLit); ok {
+				return false
+			}
+			c, ok := n.(*ast.CallExpr)
+			if !ok || core.BuiltinName(info, c) != "make" || len(c.Args) < 2 {
+				return true
+			}
+			for _, a := range c.Args[1:] {
+				if _, isConst := core.ConstInt(info, a); isConst || !mentionsAny(info, a, taint, false) {
+					continue
+				}
+				nMake++
+				ok2, why := sizeBounded(p, f, g, g.NodeOf(c.Pos()), a)
+				r.Check(ok2, "C08.R8", fmt.Sprintf("%s#make(%s)", f.Key, core.ExprStr(a)), pos(r, c), why,
+					"allocation sized by the request-derived expression "+core.ExprStr(a)+" without a dominating bound: a crafted request (e.g. a range whose end precedes its start, making an unsigned difference wrap) panics in makeslice or exhausts memory")
+			}
+			return true
+		})
+	}
+	r.Extra["C08_request_index_sites"] = nIdx
+	r.Extra["C08_request_sized_makes"] = nMake
+}
+
+func rootIdentExpr(e ast.Expr) ast.Expr {
+	if id := rootIdent(e); id != nil {
+		return id
+	}
+	return e
+}
+
+// hasPrefixGuard: s[len(prefix):] dominated by strings.HasPrefix(s, prefix) being true.
+func hasPrefixGuard(p *core.Prog, f *core.Func, s boundsSite) bool {
+	se, ok := s.Expr.(*ast.SliceExpr)
+	if !ok || se.Low == nil || se.High != nil {
+		return false
+	}
+	info := f.Pkg.TypesInfo
+	lc, ok := core.Unparen(se.Low).(*ast.CallExpr)
+	if !ok || core.BuiltinName(info, lc) != "len" || len(lc.Args) != 1 {
+		return false
+	}
+	g := p.Graph(f)
+	n := g.NodeOf(s.Expr.Pos())
+	if n == nil {
+		return false
+	}
+	for _, fc := range g.FactsAt(n) {
+		c, ok := core.Unparen(fc.Expr).(*ast.CallExpr)
+		if !ok || !fc.Truth || core.CalleeName(info, c) != "strings.HasPrefix" || len(c.Args) != 2 {
+			continue
+		}
+		if core.ExprStr(c.Args[0]) == core.ExprStr(se.X) && core.ExprStr(c.Args[1]) == core.ExprStr(lc.Args[0]) {
+			return true
+		}
+	}
+	return false
 }
